@@ -13,7 +13,11 @@ ENGINES = [
          serves_properties=["C01", "C03", "C05", "C06", "C07", "C08", "C09", "C10", "C12", "C13", "C14", "C17", "C20"]),
     dict(name="codec", path="harness/codec", kind_free_text="in-process codec harness with an independent RFC "
          "reference decoder/encoder (harness/refdns); differential + round-trip oracles; ASan+UBSan, libFuzzer",
-         serves_properties=["C02", "C03", "C04", "C18"]),
+         serves_properties=["C03", "C04"]),
+    dict(name="legacy", path="harness/legacy", kind_free_text="in-process decoder harness: structure-aware message "
+         "generator + byte mutators + seed corpus, independent reference name decoder, exactly sized inputs, counting "
+         "allocator ledger, per-call CPU watchdog; ASan+UBSan (+MSan, libFuzzer in the thorough tier)",
+         serves_properties=["C02", "C18"]),
     dict(name="dsmodel", path="harness/dsmodel", kind_free_text="model-based container testing, step-wise comparison "
          "with trivial reference models under ASan+UBSan", serves_properties=["C19"]),
     dict(name="cfg", path="harness/cfg", kind_free_text="configuration-text harness: generated files/env, effective "
@@ -33,6 +37,27 @@ CHECKS = {
                      "ASan/UBSan stayed silent, with callbacks starting requests and cancelling, hostile servers, socket "
                      "faults and seeded reordering of replies vs. timers. Exploration: histories not generated are not covered.",
                 note="Trusts the simulator's socket/server model and gcc ASan/UBSan; single-threaded (threads: C11)."),
+    "C02": dict(engine="legacy", category="exploration", design_ref="DESIGN.md §4 C02",
+                technique="runtime monitoring under ASan+UBSan+LSan (MSan and libFuzzer in the thorough tier): every decoding "
+                          "entry point on exactly sized inputs with an allocator ledger and a CPU watchdog; exhaustive "
+                          "small-scope enumeration of name encodings against an independent reference decoder",
+                text="Held on the inputs explored: (names) ALL byte strings of length 0..4 (quick; 0..5 thorough) over the "
+                     "label/pointer alphabet behind three headers, decoded at every offset by ares_expand_name and the record "
+                     "name parser, agreed with an independent reference decoder (accept/reject, consumed length, text) and "
+                     "terminated; (total) tens of thousands (millions thorough) generated, mutated and corpus messages went "
+                     "through the record parser with all flag combinations + getter walk + writer, all legacy reply parsers, "
+                     "name/string decoders at many offsets, split/hexdump helpers without sanitizer report, over-read of the "
+                     "exactly sized input, leak (ledger) or watchdog expiry, and returned either an error or a well-formed result.",
+                note="Name enumeration is exhaustive only up to the stated length; message-level coverage is sampling."),
+    "C18": dict(engine="legacy", category="exploration", design_ref="DESIGN.md §4 C18",
+                technique="runtime monitoring, differential: each legacy reply parser against the record API on the same message "
+                          "(contract table from man pages + pinned tests), field by field, with allocator ledger, under ASan+UBSan",
+                text="Held on the generated, mutated and corpus messages explored (80 k quick, millions thorough; 15 legacy calls "
+                     "each): a legacy parser returned a malformed-message status iff the record parser rejected the message; on "
+                     "success addresses, aliases, official name, TTLs (min with the alias chain), priorities/weights/ports, text "
+                     "chunks, CAA/URI/NAPTR/SOA fields and list order equalled what the record API shows; output parameters were "
+                     "NULL or untouched on failure; nothing leaked.",
+                note="Where man pages and pinned tests leave a status open (TXT/CAA with no matching record) both readings are accepted."),
     "C03": dict(engine="codec", category="exploration", design_ref="DESIGN.md §4 C03",
                 technique="runtime monitoring: write->parse->write round trip on generated and parser-accepted records with an "
                           "independent RFC decoder (refdns) as second reader, TCP-buffer placements, duplicate and legacy builders, "
